@@ -404,6 +404,7 @@ func (ex *Exec) newSymStr(tag string, capacity int) (Str, []*Term) {
 	b := make([]*Term, capacity)
 	for i := range b {
 		b[i] = tc.Var(tag+"."+itoa(i), 8)
+		tc.ClearDomain(b[i]) // a domain recorded by an earlier path of this worker does not apply to this draw
 		vars = append(vars, b[i])
 	}
 	return Str{sym: &SymStr{n: n, b: b}}, vars
